@@ -296,7 +296,9 @@ theorem countOk_apply {h : Handler} (hc : CountOk h) (o : Op) : CountOk (h.apply
     · split
       · exact hc
       · split
-        · exact hc
+        · split
+          · exact countOk_closeConn hc _ _
+          · exact hc
         · exact countOk_closeConn hc _ _
   | close id p => exact countOk_closeConn hc _ _
   | dstEof c =>
